@@ -375,9 +375,13 @@ func EvalOne(ctx context.Context, s *eval.State, what string, out io.Writer, opt
 	formatted string,
 ) {
 	if !options.PanicOk {
+		stateOut := s.Out
 		defer func() {
 			if r := recover(); r != nil {
 				panicked = true
+				// A panic inside a function call leaves s.Out pointing at that call's capture buffer
+				// (function output is captured for memoization): later output would be lost.
+				s.Out = stateOut
 				log.Critf("Caught panic: %v", r)
 				if log.LogDebug() {
 					log.Debugf("Dumping stack trace")
